@@ -53,6 +53,21 @@ def corpus_cases(chk, rnd):
     return out
 
 
+def header_cases(chk, rnd):
+    """Every sequence of up to three header tokens after func f / func f:num / on key / on down (family FamMutate),
+    with bodies that use the parameter: whatever the parser accepts of these the formatter must leave as it is."""
+    nh = 18
+    hdr2 = {ln * 10000000 + c for ln in range(0, 4) for c in range(nh ** ln)}
+    res = common.run_tlc("FamMutate", "FamMutate.cfg", defines={"TIER": chk.tier, "EDITS1": "{}", "EDITS2": "{}", "HEADERS": "{}",
+                                                                 "HEADERS2": "{" + ", ".join(map(str, sorted(hdr2))) + "}"}, timeout=1500, name="fmthdr")
+    chk.add_tlc(res, "FamMutate/headers")
+    out = []
+    for n, c in enumerate(res.cases):
+        out.append({"id": "hdr-%d" % n, "stage": "format", "variants": [c["src"]], "hasFuncs": True, "mayReject": True, "corpus": True,
+                    "class": "header/%d" % c["seed"], "expect": {"laws": "C06 + C07 if the parser accepts the text"}})
+    return out
+
+
 def cli_check(chk, cases, results, rnd):
     """evy fmt -c exits 0 exactly for text that equals its own formatted form, and changes nothing."""
     common.build_evy()
@@ -97,7 +112,7 @@ def cli_check(chk, cases, results, rnd):
 
 def run_both(chk, which):
     rnd = random.Random(common.seed())
-    cases = groups(chk, rnd) + corpus_cases(chk, rnd)
+    cases = groups(chk, rnd) + corpus_cases(chk, rnd) + header_cases(chk, rnd)
     results = common.replay(cases, deadline="30s", name="format")
     for c in cases[:1]:
         chk.sample({"variant1": machine.text_of(c["variants"][0]), "variant3": machine.text_of(c["variants"][2]),
